@@ -30,6 +30,7 @@ type Env struct {
 	reach  string
 	depth  int
 	sec    Heap // heap at the start of the current critical section (atsection(e))
+	pre    Heap // heap just before the call of an "after" site clause (before(e))
 	quant  int  // nesting depth of quantifiers (bound variables in scope)
 	maxOrd int  // evaluation happens in the middle of block 'at': later bindings are invisible
 }
@@ -451,13 +452,23 @@ func (env *Env) eval(e ast.Expr) (Val, error) {
 		if err != nil {
 			return Val{}, err
 		}
-		if strings.HasPrefix(base.T, "ghost:") {
-			gm := vc.ghostMap(strings.TrimPrefix(base.T, "ghost:"))
+		if strings.HasPrefix(base.T, "ghost:") || strings.HasPrefix(base.T, "ghostold:") || strings.HasPrefix(base.T, "ghostpre:") {
+			// ghost.name[idx]; old(ghost.name)[idx] and before(ghost.name)[idx] read the earlier map at the current index
+			gh := env.heap
+			gname := strings.TrimPrefix(base.T, "ghost:")
+			if strings.HasPrefix(base.T, "ghostold:") {
+				gh = env.old
+				gname = strings.TrimPrefix(base.T, "ghostold:")
+			} else if strings.HasPrefix(base.T, "ghostpre:") {
+				gh = env.pre
+				gname = strings.TrimPrefix(base.T, "ghostpre:")
+			}
+			gm := vc.ghostMap(gname)
 			srt := "Int"
-			if g, ok := vc.e.ghosts[strings.TrimPrefix(base.T, "ghost:")]; ok {
+			if g, ok := vc.e.ghosts[gname]; ok {
 				srt = g.Sort
 			}
-			r := Val{T: sApp("select", vc.hget(env.heap, gm), idx.T), Typ: mathInt, Math: true}
+			r := Val{T: sApp("select", vc.hget(gh, gm), idx.T), Typ: mathInt, Math: true}
 			if srt == "Bool" {
 				r.Typ = types.Typ[types.Bool]
 				r.Math = false
@@ -667,7 +678,22 @@ func (env *Env) call(x *ast.CallExpr) (Val, error) {
 	case "old":
 		n := env.sub()
 		n.heap = env.old
-		return n.eval(x.Args[0])
+		r, err := n.eval(x.Args[0])
+		if err == nil && strings.HasPrefix(r.T, "ghost:") {
+			r.T = "ghostold:" + strings.TrimPrefix(r.T, "ghost:")
+		}
+		return r, err
+	case "before":
+		if env.pre.m == nil {
+			return Val{}, fmt.Errorf("before(): only available in `at call X after ...` clauses")
+		}
+		n := env.sub()
+		n.heap = env.pre
+		r, err := n.eval(x.Args[0])
+		if err == nil && strings.HasPrefix(r.T, "ghost:") {
+			r.T = "ghostpre:" + strings.TrimPrefix(r.T, "ghost:")
+		}
+		return r, err
 	case "atsection":
 		if env.sec.m == nil {
 			return Val{}, fmt.Errorf("atsection(): no critical section has been entered on this path")
